@@ -123,6 +123,8 @@ theorem pushed_notifyRecv_sstep {a b : Stream} (h : InertR a b) : SStep b.notify
   unfold Streams.ignoreData; step_grind
 @[grind ←] theorem recvOpen_acc (k : Nat) (b : Bool) (h : Step cx s0 s) : Step cx s0 (s.recvOpen k b).1 := by
   unfold Streams.recvOpen; step_grind
+@[grind ←] theorem notifyPushIfRecvEnded_acc (k : Nat) (h : Step cx s0 s) : Step cx s0 (s.notifyPushIfRecvEnded k) := by
+  unfold Streams.notifyPushIfRecvEnded; step_grind
 @[grind ←] theorem recvRecvHeaders_acc (k : Nat) (hd : HeadersIn) (h : Step cx s0 s) : Step cx s0 (s.recvRecvHeaders k hd).1 := by
   unfold Streams.recvRecvHeaders; step_grind
 @[grind ←] theorem recvRecvTrailers_acc (k : Nat) (hd : HeadersIn) (h : Step cx s0 s) : Step cx s0 (s.recvRecvTrailers k hd).1 := by
